@@ -190,6 +190,22 @@ def build(cfg, hist):
     return st
 
 
+def alphabet19(W, P):
+    T = W // 10
+    evs = []
+    for n in sorted({1, max(1, P - 65), P - 64, P, W, W + 1}):
+        evs.append(("send", n))
+    for n in sorted({1, P - 64, W + 1}):
+        evs.append(("send_err", n))
+    for n in sorted({1, T, T + 1, W}):
+        evs.append(("recv", n))
+    for n in sorted({T + 1, W}):
+        evs.append(("recv_err", n))
+    evs.append(("dA",))
+    evs.append(("dB",))
+    return evs
+
+
 def alphabet(W, P, ext_codes=(), small=False):
     T = W // 10
     sizes = [1, T, T + 1, P - 64, 1 << 30] if not small else [1, T + 1, 1 << 30]
